@@ -54,6 +54,14 @@ func (p *Program) Func(rel, name string) (*ssa.Function, error) {
 			}
 		}
 		if fn == nil {
+			// methods of a generic type: the (uninstantiated) generic body
+			for i := 0; i < named.NumMethods(); i++ {
+				if m := named.Method(i); m.Name() == mn {
+					fn = p.Prog.FuncValue(m)
+				}
+			}
+		}
+		if fn == nil {
 			return nil, fmt.Errorf("method %s.%s not found", rel, base)
 		}
 	} else {
